@@ -36,7 +36,7 @@ def run(ctx):
 
     # E4 ---------------------------------------------------------------------------------------
     traces = [tr_cover]
-    n = 4000 if thorough else 400
+    n = 4000 if thorough else 300
     for pct in (0, 3):
         tr = os.path.join(ctx.work, 'rand_p%d.ndjson' % pct)
         tot, _ = ctx.driver(exe, ['--out', tr, '--randprog', 'c20', '--random', n, '--seed', ctx.seed + pct,
@@ -47,7 +47,7 @@ def run(ctx):
 
     # E3 ---------------------------------------------------------------------------------------
     allt = C21.cat(traces, os.path.join(ctx.work, 'all.ndjson'))
-    ctx.validate(SPEC, 'EventTrace.tla', 'EventTrace.cfg', allt, WHAT, executions=execs,
+    C21.validate(ctx, 'EventTrace.tla', 'EventTrace.cfg', allt, WHAT, executions=execs,
                  label='cover replay + random timed programs')
     ctx.sample_trace(tr_cover, 12)
 
@@ -56,7 +56,7 @@ def run(ctx):
     rounds = 1500 if thorough else 150
     tot, _ = ctx.driver(exe, ['--out', obs, '--free', rounds, '--seed', ctx.seed], WHAT,
                         label='free-running timed waits (real futex, steady_clock)', timeout=900)
-    ctx.validate(SPEC, 'TimedObs.tla', 'TimedObs.cfg', obs, WHAT + ' (real time)', executions=tot.get('steps', 0),
+    C21.validate(ctx, 'TimedObs.tla', 'TimedObs.cfg', obs, WHAT + ' (real time)', executions=tot.get('steps', 0),
                  label='E5 real-time observation records')
     ctx.cov['realtime_records'] = tot.get('steps', 0)
     ctx.sample_trace(obs, 8)
